@@ -674,4 +674,29 @@ theorem adjacent_ofSegs (step : S → U → S) (valid : S → Bool) :
       · exact Or.inl ⟨x, List.mem_cons_of_mem _ hx, hxb⟩
       · exact Or.inr h
 
+/-- `check_sound` for a path with at least one control (helper) -/
+theorem check_sound_ne [DecidableEq S] (step : S → U → S) (valid : S → Bool) (p : Path S U)
+    (s0 : S) (rest : List S) (hs : p.states = s0 :: rest) (hl1 : rest.length = p.controls.length)
+    (hl2 : p.steps.length = p.controls.length) (hne : p.controls ≠ [])
+    (hc : p.check step valid (fun a b => decide (a = b)) = true) :
+    valid s0 = true ∧ ReplayOK step valid s0 (segs rest p.controls p.steps) := by
+  obtain ⟨a, b, c⟩ := maps_segs rest p.controls p.steps hl1 hl2
+  have hemp : p.controls.isEmpty = false := by
+    cases hcs : p.controls with
+    | nil => exact absurd hcs hne
+    | cons _ _ => rfl
+  unfold Path.check at hc
+  rw [hemp] at hc
+  simp only [Bool.false_eq_true, if_false] at hc
+  rw [hs] at hc
+  have hc' : checkLoop step valid (fun a b => decide (a = b))
+      (s0 :: (segs rest p.controls p.steps).map (·.2.2)) ((segs rest p.controls p.steps).map (·.1))
+      ((segs rest p.controls p.steps).map (·.2.1)) = true := by
+    rw [a, b, c]; exact hc
+  obtain ⟨h1, h2⟩ := checkLoop_sound step valid _ s0 hc'
+  refine ⟨h2 ?_, h1⟩
+  intro hnil
+  rw [hnil] at b
+  exact hne b.symm
+
 end OmplModel.Control
